@@ -172,7 +172,7 @@ func sanitize(s string) string {
 
 // Finish prints the verdict lines, writes evidence (and replay files) and returns the exit code.
 func (r *Report) Finish(fo finishOpts) int {
-	kf := loadKnown(filepath.Join(fo.verifDir, "known_findings.json"))
+	kf := loadKnown(knownPath)
 	sort.SliceStable(r.Obls, func(i, j int) bool {
 		if r.Obls[i].Rule != r.Obls[j].Rule {
 			return r.Obls[i].Rule < r.Obls[j].Rule
